@@ -162,6 +162,9 @@ class Engine(object):
             return VCallable(BUILTINS[name], name)
         if name in ('nx', 'np', 'copy', 'dn', 'tqdm') and not (name == 'tqdm' and fr.modname == 'assortativity'):
             return VModule(name)
+        if name == 'chain':
+            # itertools.chain(a, b, ...): the concatenation, kept as the list of its parts
+            return VCallable(lambda i, a, k, f: VChain(list(a)), 'chain')
         if name == 'tqdm':
             # trusted: tqdm(iterable, ...) iterates its first argument, in order
             interp.ctx.notes.append('trusted: tqdm(x, ...) iterates x')
@@ -234,6 +237,10 @@ class Engine(object):
     def bound_method(self, g, name, fr, interp):
         eng = self
         cls = g.cls
+        hook = getattr(interp.ctx, 'method_hook', None)
+        if hook is not None:
+            # a forwarding contract observes every method call on the graph instead of executing it
+            return VCallable(lambda i, a, k, f: hook(i, g, name, a, k), 'hooked::' + name)
         if name in ('adjlist_inner_dict_factory', 'adjlist_outer_dict_factory', 'node_dict_factory',
                     'node_attr_dict_factory'):
             return VCallable(lambda i, a, k, f: VDictLit([], role='row'), name)
